@@ -119,8 +119,15 @@ def _cast(v, kind):
             if f.denominator != 1:
                 t = int(f)  # truncation toward zero
                 return Sc(t)
+        elif kind == 'i':
+            # NumPy truncates toward zero on a store into an integer array: trunc(x) = floor(x) for x >= 0, -floor(-x) otherwise
+            import z3
+            from .scalar import zterm
+            x = zterm(v.re)
+            state.S.events.append('store of a symbolic value into an integer array: truncated toward zero')
+            return Sc(z3.If(x >= 0, z3.ToReal(z3.ToInt(x)), -z3.ToReal(z3.ToInt(-x))))
         else:
-            raise NotImplementedError('store of symbolic value into integer/bool array')
+            raise NotImplementedError('store of symbolic value into bool array')
     return v
 
 
